@@ -31,7 +31,7 @@ class NStream(object):
 
 
 def fingerprint(d):
-    return hashlib.sha1(repr(d.enc_case()).encode()).hexdigest()[:16]
+    return hashlib.sha1(repr((d.enc_case(), d.models, d.mhist, d.falsy, sorted(d.suspend.items()))).encode()).hexdigest()[:16]
 
 
 # ---------------------------------------------------------------------------------------------
@@ -201,18 +201,21 @@ def monitor_request(kind, d, run):
     return (kind, d.enc_cfg() + nested.enc_sval(run.states_after[0]) + common.enc_items(run.items))
 
 
-def judge_case(prop, stream_name, d, model_ans, runs, mon_answers, enum_states=False):
+def judge_case(prop, stream_name, d, model_ans, runs, mon_answers, enum_states=False, full=None, mid=0):
     """runs: {class name: (run, err)}; mon_answers: {class name: answer}"""
     out = []
-    case = {'stream': stream_name, 'desc': d.to_json(), 'classes': sorted(runs), 'enum': bool(enum_states)}
+    case = {'stream': stream_name, 'desc': (full or d).to_json(), 'classes': sorted(runs), 'enum': bool(enum_states),
+            'model': mid}
     hm, hm_err = runs['HierarchicalMachine']
     for cls, (r, err) in sorted(runs.items()):
         ccase = dict(case, cls=cls)
         if err == 'hang':
-            out.append(Failure('monitor', 'hang:' + cls, ccase, {'class': cls}, signature=None))
+            if mid == 0:
+                out.append(Failure('monitor', 'hang:' + cls, ccase, {'class': cls}, signature=None))
             continue
         if err:
-            out.append(Failure('correspondence', 'construction:' + cls, ccase, {'error': err}))
+            if mid == 0:
+                out.append(Failure('correspondence', 'construction:' + cls, ccase, {'error': err}))
             continue
         if r.bad:
             out.append(Failure('monitor', 'recorder:' + r.bad[0][0], ccase, {'bad': r.bad[:5], 'class': cls},
@@ -264,10 +267,21 @@ def judge_case(prop, stream_name, d, model_ans, runs, mon_answers, enum_states=F
     return out
 
 
+def restrict(d, m):
+    """the description as model `m` of the machine sees it (models of one machine are independent)"""
+    if max(1, d.models) == 1:
+        return d
+    x = copy.copy(d)
+    x.history = d.history_of(m)
+    x.models, x.mhist, x.falsy = 1, [], []
+    return x
+
+
 def run_batch(prop, stream, descs, offset, ex, only_classes=None, enum_states=None):
     streams, mon_kind = _REGISTRY[prop]
     enum_states = stream.enum_states if enum_states is None else enum_states
-    ans = common.batch_driver([('nested', d.enc_case()) for d in descs])
+    keys = [(i, m) for i, d in enumerate(descs) for m in range(max(1, d.models))]
+    ans = dict(zip(keys, common.batch_driver([('nested', descs[i].enc_case_model(m)) for i, m in keys])))
     all_runs = []
     reqs, where = [], []
     for i, d in enumerate(descs):
@@ -285,28 +299,33 @@ def run_batch(prop, stream, descs, offset, ex, only_classes=None, enum_states=No
             runs[cls] = nested.run_guarded(d, cls, enum=enum_states)
             r, err = runs[cls]
             if r is not None and not err:
-                reqs.append(monitor_request(mon_kind, d, r))
-                where.append((i, cls))
+                for m in range(max(1, d.models)):
+                    reqs.append(monitor_request(mon_kind, d, r.views[m]))
+                    where.append((i, m, cls))
         all_runs.append(runs)
-    mons = [dict() for _ in descs]
+    mons = {}
     if reqs:
-        for (i, cls), a in zip(where, common.batch_driver(reqs)):
-            mons[i][cls] = a
-    for d, a, runs, mon in zip(descs, ans, all_runs, mons):
+        for (i, m, cls), a in zip(where, common.batch_driver(reqs)):
+            mons.setdefault((i, m), {})[cls] = a
+    for i, (d, runs) in enumerate(zip(descs, all_runs)):
         ex.evaluations += 1
-        if a == 'oof':
-            ex.oof += 1
         hm = runs['HierarchicalMachine'][0]
-        fs = judge_case(prop, stream.name, d, a, runs, mon, enum_states)
-        ex.failures += fs
-        ex.traces_validated += len(mon)
+        for m in range(max(1, d.models)):
+            a = ans[(i, m)]
+            if a == 'oof':
+                ex.oof += 1
+            mon = mons.get((i, m), {})
+            views = {cls: ((r.views[m] if (r is not None and not err) else r), err) for cls, (r, err) in runs.items()}
+            fs = judge_case(prop, stream.name, restrict(d, m), a, views, mon, enum_states, full=d, mid=m)
+            ex.failures += fs
+            ex.traces_validated += len(mon)
         if hm is not None:
-            stats(ex.stats, d, hm, mon.get('HierarchicalMachine'))
+            stats(ex.stats, d, hm, mons.get((i, 0), {}).get('HierarchicalMachine'))
             if is_nontrivial(d, hm):
                 ex.nontrivial.add(fingerprint(d))
                 if len(ex.samples) < 2:
                     ex.samples.append({'stream': stream.name, 'initial': nested.pname(d.initial), 'history': d.history,
-                                       'states': hm.states_after[:6],
+                                       'models': d.models, 'states': hm.states_after[:6],
                                        'trace': [common.show_item(i) for i in hm.items[:30]]})
 
 
@@ -323,6 +342,9 @@ def stats(st, d, run, mon):
     bump('n_states', len(nodes))
     bump('depth', max(len(p) for p, _n in nodes))
     bump('queued', int(d.queued))
+    bump('models', max(1, d.models))
+    bump('falsy_models', sum(1 for f in d.falsy if f))
+    bump('suspending_enter_exit_callbacks', min(3, len(d.suspend)))
     bump('local_declarations', min(3, sum(len(ts) for _p, n in nodes for _e, ts in n['local'])))
     shape = 'single'
     for v in run.states_after:
@@ -576,6 +598,13 @@ def shrink_steps(case):
         if len(d['history']) > 1:
             c = copy.deepcopy(d)
             del c['history'][i]
+            if i < len(c.get('mhist', [])):
+                del c['mhist'][i]
+            yield mk(c)
+    if d.get('suspend'):
+        for i in range(len(d['suspend'])):
+            c = copy.deepcopy(d)
+            del c['suspend'][i]
             yield mk(c)
     # drop transitions
     for ei, (_ev, ts) in enumerate(d['events']):
@@ -730,8 +759,11 @@ class NestedCheck(runner.Check):
         r, err = nested.run_guarded(d, cls, enum=bool(f.case.get('enum')))
         f.details['shrunk_class'] = cls
         if r is not None:
-            f.details['shrunk_states'] = r.states_after
-            f.details['shrunk_ghost'] = [' '.join(map(str, g)) for g in ghost(d, r.items)]
+            vw = r.views.get(f.case.get('model', 0), r.views[0])
+            f.details['shrunk_model'] = f.case.get('model', 0)
+            f.details['shrunk_states'] = vw.states_after
+            f.details['shrunk_ghost'] = [' '.join(map(str, g)) for g in ghost(d, vw.items)]
+            f.details['shrunk_bad'] = vw.bad[:3]
 
     def search(self, tier, seed, failures):
         payloads = []
@@ -756,7 +788,8 @@ class NestedCheck(runner.Check):
         case = payload['case']
         d = nested.NDesc.from_json(case['desc'])
         cls = case.get('cls') or 'HierarchicalMachine'
-        print('class:', cls, ' initial:', nested.pname(d.initial), ' queued:', d.queued, ' history:', d.history)
+        print('class:', cls, ' initial:', nested.pname(d.initial), ' queued:', d.queued, ' history:', d.history,
+              ' models:', d.models, ' model of each call:', d.mhist, ' falsy:', d.falsy, ' suspending callbacks:', d.suspend)
         for p, n in d.walk():
             print('  ' * len(p) + nested.pname(p), 'initial', [nested.seg(i) for i in n['initial']],
                   ['local e%d: %s -> %s' % (e, nested.pname(t['source']), t['dest'] and nested.pname(t['dest']))
@@ -766,9 +799,10 @@ class NestedCheck(runner.Check):
                 print('global e%d: %s -> %s' % (e, nested.pname(t['source']), t['dest'] and nested.pname(t['dest'])))
         r, err = nested.run_guarded(d, cls, enum=bool(case.get('enum')))
         if r is not None:
-            print('states after each call:', r.states_after)
-            for g in ghost(d, r.items):
-                print('   ', g)
+            for m, vw in sorted(r.views.items()):
+                print('model %d: states after each of its calls:' % m, vw.states_after, ' recorder problems:', vw.bad[:3])
+                for g in ghost(d, vw.items):
+                    print('   ', g)
         fs = self.rejudge(case)
         for f in fs:
             print('FAIL', f.kind, f.what, f.signature)
